@@ -78,6 +78,7 @@ Theorem C11_parse_addr_examples :
    false; false; false; true; false; false; false; false;
    false; false; false].
 Proof. exact parse_addr_examples. Qed.
+Print Assumptions C11_parse_addr_examples.
 
 (* hop n+1 is refused iff n >= limit; NoRedirect refuses the first hop *)
 Theorem C11_max_redirects_exact : forall n t via,
@@ -250,6 +251,7 @@ Print Assumptions C11_client_independent_of_other_clients.
 Theorem C11_method_value_design_refuted :
   exists ops, crun_mv ([], []) ops <> snd (crun [] ops).
 Proof. exact method_value_design_refuted. Qed.
+Print Assumptions C11_method_value_design_refuted.
 
 (* ---- several chains in flight through one client ---- *)
 
@@ -311,6 +313,7 @@ Theorem C11_reissue_from_final_url_refuted :
     (forall o' s', In o' (reissue ps init hs scripts) -> In s' (fst o') ->
                    s_host s' <> init -> In (bs "Authorization", 0) (s_hdrs s')).
 Proof. exact reissue_from_final_refuted. Qed.
+Print Assumptions C11_reissue_from_final_url_refuted.
 
 (* ---- the digest-auth re-send: one more request, to the NAMED host, never followed further ---- *)
 
@@ -345,6 +348,7 @@ Theorem C11_digest_resend_to_last_hop_refuted :
     (forall s', In s' (fst (digest_call ps init hs targets)) -> s_host s' <> init ->
                 In (bs "Authorization", 0) (s_hdrs s') /\ In (bs "Cookie", 0) (s_hdrs s')).
 Proof. exact digest_call_last_hop_refuted. Qed.
+Print Assumptions C11_digest_resend_to_last_hop_refuted.
 
 (* ---- the tie to the source text (gosync, regenerated on every run) ---- *)
 
@@ -386,6 +390,7 @@ Theorem C11_pinned_hostname_refuted :
   exists a, wf_authority a = true /\
     get_hostname_pinned (render_authority a) <> to_lower (host_text (a_host a)).
 Proof. exact hostname_pinned_refuted. Qed.
+Print Assumptions C11_pinned_hostname_refuted.
 
 (* non-vacuity: the hypotheses are met by concrete non-trivial authorities *)
 Example C11_nonvacuous :
